@@ -223,7 +223,8 @@ Checks that were strengthened because a seeded change (or the triage of one) sho
   2048-fold and must not cost the others a byte; **C12-14** (the `HTP_DECODER_DEFAULTS` fan-out of three setters stops short of the
   path context) - a third of `en_c12`'s lattice is configured through `HTP_DECODER_DEFAULTS`. C10-14 (Host-header string leaked when
   the target is absolute-form and agrees with it) was reported through LeakSanitizer on C10's own workload, not by the steady-state
-  sampler, whose request shapes are all origin-form.
+  sampler, whose request shapes were all origin-form; one shape now mixes in absolute-form targets that agree with the Host field
+  (the sampler reports `steady_state_memory_growth` for it as well).
 * **C08-1/2, C19-1/2** were the acceptance tests of the two checks built last; C19-1 (a process-wide decompression buffer) is
   invisible to ThreadSanitizer because zlib does the writes, and is caught by the solo-vs-shared dump comparison under baton
   interleavings; C19-2 (self-organising best-fit map) is caught by the deep configuration hash and by TSan.
